@@ -1,14 +1,31 @@
-"""C17 (bounded part; proved part to be added)."""
+"""C17 - a solver stays correct after a backend timeout or interrupt."""
+from vf.common import task
 from vf.props import _rtc
 
-LEVEL = "exploration"
-LEVEL_TEXT = ("Bounded stand-in only in this round (never counted as proved); see rule.")
-TECHNIQUE = "bounded run-time contracts (stand-in)"
+LEVEL = "other"
+LEVEL_TEXT = _rtc.MIXED
+EXPLANATION = ("proved: z3_solver_sat never returns an answer when the solver gave up (every result/reason combination); BackendZ3._batch_eval restores "
+               "the solver's push depth and leaves no blocking clause on every exit, with the check allowed to give up at EVERY call position, and its "
+               "normal results are feasible, distinct and complete; BackendZ3._extrema returns the true optimum for every feasible set (3 bits) in both "
+               "signednesses and leaves the solver as it found it also when a check gives up; ModelCacheMixin's queries, with the stack below allowed to "
+               "raise ClaripySolverInterruptError at EVERY call, either propagate the error or answer correctly, and the cache invariant holds on the "
+               "exceptional exit.  bounded: faults injected at every check of every operation of bounded histories on the real solver classes, all later "
+               "answers (and those of branches) judged by the stateless reference")
+TECHNIQUE = "exceptional-postcondition proofs on the real backend functions over a ghost solver (pyvc, z3) + bounded fault injection"
 RULE = _rtc.RTC_RULE
-FUNCTIONS = []
-TRUSTED = _rtc.RTC_TRUSTED
-ASSUMPTIONS = ["bounded; see rule"]
+Z = "vf.contracts.z3solve"
+FUNCTIONS = ["backend_z3.z3_solver_sat", "BackendZ3._batch_eval", "BackendZ3._extrema"] + \
+            [f"ModelCacheMixin.{m} (exceptional postcondition)" for m in ("eval", "batch_eval", "min", "max", "solution", "satisfiable")]
+TRUSTED = _rtc.RTC_TRUSTED + ["ghost solver: push/pop/add/model as documented by Z3"]
+ASSUMPTIONS = ["the layers between _batch_eval/_extrema and ModelCacheMixin (FullFrontend and the other mixins) keep no state across a raised call: bounded part only",
+               "value universe of 2 bits for _batch_eval (n <= 3), 3 bits for _extrema"]
 
 
 def tasks(tier, seed=0):
-    return _rtc.rtc_tasks("C17", tier, seed)
+    out = [task(Z, "ob_solver_sat", "z3solve.z3_solver_sat/no-answer-when-unknown", ["C17"]),
+           task(Z, "ob_batch_eval", "z3solve._batch_eval/state-restored+results", ["C17", "C14", "C11"], tier=tier),
+           task(Z, "ob_extrema", "z3solve._extrema/true-optimum", ["C11", "C17"], tier=tier)]
+    for m in ("eval", "min", "max", "solution", "satisfiable"):
+        out.append(task("vf.contracts.mixins", "ob_modelcache", f"mixin.ModelCacheMixin.{m}[backend-may-give-up]/answer+invariant", ["C17", "C11"],
+                        method=m, tier=tier, faults=True))
+    return out + _rtc.rtc_tasks("C17", tier, seed)
